@@ -39,6 +39,11 @@ pub enum Call {
     QueryTxMut { tid: u128 },
     /// transport(), local_addr(), remote_addr(), local/remote credentials
     Getters,
+    /// An application that keeps a `StunRequestMut` for transaction `handle` and drives the agent
+    /// *through it* (`StunRequestMut::mut_agent`): the inner call (send / poll / handle_stun) is made
+    /// on the agent reachable from the handle, and the handle is asked for its peer address before
+    /// and (if its own transaction is still outstanding) after the call.
+    Via { handle: u128, inner: Box<Call> },
 }
 
 #[derive(Clone, Debug, PartialEq, Eq)]
@@ -79,6 +84,11 @@ pub enum Reply {
     Peer(bool),
     Getters { tcp: bool, local: SocketAddr, remote_addr: Option<SocketAddr>, local_creds: Option<String>, remote_creds: Option<String> },
     Panic(String, String),
+    /// reply of a `Call::Via`: the inner call's reply; `before`: the handle's peer address before the
+    /// call (None: no handle existed, the inner call was made on the agent directly); `after`:
+    /// Some(None) if the handle's transaction was no longer outstanding after the call, else its
+    /// peer address as the handle reports it then
+    Via { inner: Box<Reply>, before: Option<SocketAddr>, after: Option<Option<SocketAddr>> },
 }
 
 impl Reply {
@@ -99,6 +109,7 @@ impl Reply {
             Reply::Peer(_) => 13,
             Reply::Panic(_, _) => 14,
             Reply::Getters { .. } => 15,
+            Reply::Via { inner, .. } => inner.kind(),
         }
     }
     pub fn short(&self) -> String {
@@ -109,6 +120,7 @@ impl Reply {
             Reply::Incoming(m) => format!("IncomingStun(tid={:#x} class={} attrs={})", m.tid, m.class, m.attrs.len()),
             Reply::TimedOut(t) => format!("TransactionTimedOut({t:#x})"),
             Reply::Cancelled(t) => format!("TransactionCancelled({t:#x})"),
+            Reply::Via { inner, before, after } => format!("{} [handle: before={before:?} after={after:?}]", inner.short()),
             o => format!("{o:?}"),
         }
     }
@@ -239,6 +251,20 @@ fn exec_inner(agent: &mut StunAgent, call: &Call, base: Instant) -> Reply {
             }
             None => Reply::Tx(None),
         },
+        Call::Via { handle, inner } => {
+            let id = TransactionId::from(*handle);
+            match agent.mut_request_transaction(id) {
+                None => Reply::Via { inner: Box::new(exec_inner(agent, inner, base)), before: None, after: None },
+                Some(mut h) => {
+                    let before = h.peer_address();
+                    let r = exec_inner(h.mut_agent(), inner, base);
+                    // the handle's own transaction may have completed through that call: peer_address()
+                    // is only asked for a transaction the handle's own agent still lists
+                    let after = if h.agent().request_transaction(id).is_some() { Some(h.peer_address()) } else { None };
+                    Reply::Via { inner: Box::new(r), before: Some(before), after: Some(after) }
+                }
+            }
+        }
         Call::Getters => Reply::Getters {
             tcp: agent.transport() == TransportType::Tcp,
             local: agent.local_addr(),
@@ -264,5 +290,6 @@ pub fn call_short(c: &Call) -> String {
         Call::SendData { bytes, to } => format!("send_data({}B) to={}", bytes.len(), to),
         Call::QueryTxMut { tid } => format!("mut_request_transaction({tid:#x}).peer_address()"),
         Call::Getters => "getters".into(),
+        Call::Via { handle, inner } => format!("[via handle {handle:#x}] {}", call_short(inner)),
     }
 }
